@@ -406,6 +406,10 @@ func (w *World) Apply(ev Event) bool {
 		ConsumeOutput(o)
 	}
 	w.toConsume = w.toConsume[:0]
+	for _, ex := range w.toReuse {
+		ReuseInput(ex)
+	}
+	w.toReuse = w.toReuse[:0]
 	if applied && !(w.Stop()) {
 		// (after a violation the event was abandoned half-way: the world is not judged further)
 		w.CheckInvariants()
